@@ -75,9 +75,17 @@ pub fn run(args: &Args) -> Report {
                             Ok(c) => Some(block_on(client.authenticate(&origin, request_options(Some("example.com"), &[2u8; 16], Some(vec![descriptor(&c.raw_id)]), UserVerificationRequirement::Preferred), DefaultClientData))),
                             Err(_) => None,
                         };
-                        (reg, events, snap, auth)
+                        // a second assertion in which the user is present but not verified
+                        let auth2 = match &reg {
+                            Ok(c) => {
+                                rig.uv.set_outcome(crate::collab::UvOutcome::Check { presence: true, verification: false });
+                                Some(block_on(client.authenticate(&origin, request_options(Some("example.com"), &[3u8; 16], Some(vec![descriptor(&c.raw_id)]), UserVerificationRequirement::Discouraged), DefaultClientData)).map(|a| a.response.user_handle.map(|h| h.to_vec())))
+                            }
+                            Err(_) => None,
+                        };
+                        (reg, events, snap, auth, auth2)
                     });
-                    let (reg, events, snap, auth) = match r {
+                    let (reg, events, snap, auth, auth2) = match r {
                         Ok(v) => v,
                         Err((sig, d)) => {
                             rep.violate(&format!("client: {sig}"), d, case);
@@ -139,6 +147,16 @@ pub fn run(args: &Args) -> Report {
                                         Some(Err(e)) => rep.violate("client: follow-up assertion failed", format!("{e:?}"), case.clone()),
                                         None => {}
                                     }
+                                    match auth2 {
+                                        Some(Ok(uh)) => {
+                                            rep.count("unverified_assertions_checked");
+                                            if uh.as_deref() != s.user_handle.as_deref() {
+                                                rep.violate("client: assertion without user verification returns a user handle differently from what the credential stores", format!("returned {}, stored {}", uh.is_some(), s.user_handle.is_some()), case.clone());
+                                            }
+                                        }
+                                        Some(Err(e)) => rep.violate("client: follow-up assertion (user present, not verified, verification discouraged) failed", format!("{e:?}"), case.clone()),
+                                        None => {}
+                                    }
                                 }
                             }
                         }
@@ -168,9 +186,16 @@ pub fn run(args: &Args) -> Report {
                     Ok(_) => Some(block_on(auth.get_assertion(ga_request("example.com", &[2u8; 32], None, None, true, false)))),
                     Err(_) => None,
                 };
-                (info_rk, reg.map(|_| ()).map_err(|e| status_byte_ref(&e)), snap, get.map(|g| g.map(|r| r.user.map(|u| u.id.to_vec())).map_err(|e| status_byte_ref(&e))))
+                let get2 = match &reg {
+                    Ok(_) => {
+                        rig.uv.set_outcome(crate::collab::UvOutcome::Check { presence: true, verification: false });
+                        Some(block_on(auth.get_assertion(ga_request("example.com", &[4u8; 32], None, None, true, false))).map(|r| r.user.map(|u| u.id.to_vec())).map_err(|e| status_byte_ref(&e)))
+                    }
+                    Err(_) => None,
+                };
+                (info_rk, reg.map(|_| ()).map_err(|e| status_byte_ref(&e)), snap, get.map(|g| g.map(|r| r.user.map(|u| u.id.to_vec())).map_err(|e| status_byte_ref(&e))), get2)
             });
-            let (info_rk, reg, snap, get) = match r {
+            let (info_rk, reg, snap, get, get2) = match r {
                 Ok(v) => v,
                 Err((sig, d)) => {
                     rep.violate(&format!("ctap: {sig}"), d, case);
@@ -207,6 +232,16 @@ pub fn run(args: &Args) -> Report {
                             }
                         }
                         Some(Err(b)) => rep.violate("ctap: follow-up assertion failed", format!("{b:#x}"), case.clone()),
+                        None => {}
+                    }
+                    match get2 {
+                        Some(Ok(uh)) => {
+                            rep.count("unverified_assertions_checked");
+                            if uh.as_deref() != s.user_handle.as_deref() {
+                                rep.violate("ctap: assertion without user verification returns a user handle differently from what the credential stores", String::new(), case.clone());
+                            }
+                        }
+                        Some(Err(b)) => rep.violate("ctap: follow-up assertion (not verified) failed", format!("{b:#x}"), case.clone()),
                         None => {}
                     }
                 }
